@@ -702,6 +702,12 @@ func (s *Sim) pick(r []*Task) (next *Task, noop bool) {
 			}
 		}
 		s.PreemptRec = append(s.PreemptRec, s.yieldCount)
+		// reach probe: in which function did an effective preemption land?
+		site := pre.site
+		if i := strings.LastIndexByte(site, ':'); i > 0 {
+			site = site[:i]
+		}
+		s.Probes["preempt@"+site]++
 		if s.cfg.SinglePre > 0 {
 			return others[s.cfg.SingleTask%len(others)], false
 		}
